@@ -69,6 +69,9 @@ structure Obj where
   links : Option Table        -- `none` = moved out (and dropped)
   value : Option Val          -- `none` = moved out
   freed : Bool
+  /-- ghost (read by no branch of the machine, ignored by the driver): the implicit weak reference
+  owned by the strong side has not been released yet -/
+  implicit : Bool := true
   deriving DecidableEq, Repr, Inhabited
 
 inductive Err
